@@ -514,6 +514,22 @@ def build(tier):
                     probe.append(s["probe"])
                 py += s["py"]
                 keys += s["keys"]
+    # a RUN of the same kind of hostile input, each in a read of its own (six well-framed requests with a broken PDU in
+    # a row, six unknown function codes, six bad byte counts): no number of consecutive bad frames may end the serving
+    for fe in L.FRONTENDS:
+        for framer in L.FRAMER_NAMES:
+            for hk in ("trunc", "bytecount", "unknown_fc"):
+                hks = [hk] * 6
+                wd = {"hostile_kinds": hks}
+                with watchdog("C12", wd):
+                    s = run_session(r, fe, framer, hks, tier, wd=wd)
+                ladder += s["ladder"]
+                if s["store"] is not None:
+                    store.append(s["store"])
+                if s["probe"] is not None:
+                    probe.append(s["probe"])
+                py += s["py"]
+                keys += s["keys"]
     # every truncation offset of consistent-header FC15/16/23/21 requests, framings that do not size the
     # frame from the byte count, every front-end
     for fe in L.FRONTENDS:
